@@ -223,6 +223,14 @@ func (p *c20) indexed(sc *runner.Scenario, ex *c20Extra, st *runner.Stats, pin s
 				if pending > allowed*ex.PerCh {
 					clause, detail = "slot_capacity", fmt.Sprintf("after message %d: %d message index entries pending, at most %d chunks x %d messages can be outstanding", n, pending, allowed, ex.PerCh)
 				}
+				if qc, ql, ok := mcap.VerifIterQueueCap(it); ok && clause == "" {
+					// the queue may hold the unread entries of the overlapping chunks plus
+					// yielded ones awaiting compaction (at most as many again), and Go's
+					// append may double the capacity
+					if limit := 8*allowed*ex.PerCh + 64; ql > limit || qc > 2*limit {
+						clause, detail = "slot_capacity", fmt.Sprintf("after message %d: message index queue holds %d entries (capacity %d); at most %d chunks x %d messages can be outstanding", n, ql, qc, allowed, ex.PerCh)
+					}
+				}
 				if rb > uint64(2*sizes[0])+64<<10 {
 					clause, detail = "slot_capacity", fmt.Sprintf("after message %d: record scratch buffer holds %d bytes, largest chunk is %d", n, rb, sizes[0])
 				}
